@@ -75,6 +75,9 @@ def run(ctx, R, tier):
     # "independently of how time is partitioned into updates": modulators, clocks and listeners advance by dt * the number
     # of frames of THIS chunk (the C05 rule)
     c05.order(F, R)
+    # 'a new tween begins from the current, possibly mid-tween, value' for the pause / resume / stop fades
+    from .c03 import fade_continuity
+    fade_continuity(F, R, rule='B.C06.fade-continuity')
 
 
 def cover(F, R):
@@ -108,6 +111,40 @@ def cover(F, R):
                     'Parameter %s.%s never receives its command reader: its setter command is never applied' % (adt, f),
                     detail={'field': '%s.%s' % (adt, f)}, where=F.adts[adt]['file'])
     R.floor('B.C06.cover', len(fields), 41)
+    # ... exactly once per pass, by the time of that pass: within one function a parameter has one update site, and a site
+    # inside a loop advances by the duration of that iteration's own slice (a second site, or a block-wide duration applied
+    # once per sub-chunk, makes the tween run n times too fast)
+    for b in F.bodies:
+        if b.krate != 'kira':
+            continue
+        per = {}
+        for bb, t in b.calls():
+            if (callee_path(t) or '') == P + '::update':
+                lf = last_field(origin_pl(b, t['args'][0]) or {})
+                if lf:
+                    per.setdefault((lf[1], lf[0]), []).append((bb, t))
+        for (adt, f), sites in sorted(per.items()):
+            why = None
+            if len(sites) > 1:
+                why = 'is updated at %d sites of %s' % (len(sites), b.path)
+            else:
+                bb, t = sites[0]
+                loops = [l for l in b.loops() if bb in l['blocks']]
+                if loops:
+                    d = describe(b, t['args'][1], depth=10, at=bb)
+                    # ... or the parameter itself belongs to the loop's item (one parameter per send route)
+                    item = 'Iterator>::next(' in d or 'Iterator>::next(' in describe(b, t['args'][0], depth=10, at=bb)
+                    from ..facts import operand_place
+                    rp = operand_place(b, t['args'][0])
+                    if rp is not None:
+                        bd = b.defs().get(rp['l'], [])
+                        if bd and all(x[0] == 'call' and (x[2].get('callee') or {}).get('name') in ('next', 'next_back') for x in bd):
+                            item = True
+                    if not item:
+                        why = 'is updated inside a loop of %s by %s, a duration that is not that of the iteration\'s own slice' % (b.path, d[:80])
+            R.check(why is None, 'B.C06.cover', '%s.%s:once@%s' % (adt.split('::')[-1], f, b.path.split(' as ')[0].split('::')[-1].strip('<>')),
+                    'Parameter %s.%s %s: its tweens run too fast' % (adt, f, why), detail={'field': '%s.%s' % (adt, f), 'fn': b.path}, where=b.file,
+                    nontrivial=False)
 
 
 def getters(F, R):
@@ -156,6 +193,12 @@ def prev(F, R):
         d = [describe(iv, a) for a in cs[0][1]['args']] if cs else []
         R.check(d[:2] == ['(*self).previous_raw_value', '(*self).raw_value'] and d[2:] == ['amount'], 'B.C06.prev', 'interpolated_value',
                 'interpolated_value interpolates %s' % d, detail={'args': d})
+        # ... on every path: the chunk in which a tween ends still interpolates from the previous chunk's final value (a
+        # shortcut for a parameter "at rest" turns that last chunk into a step)
+        rets = [str(p.ret) for p in explore(iv) if p.end == 'return']
+        R.check(bool(rets) and all('::interpolate(' in r and 'previous_raw_value' in r for r in rets), 'B.C06.prev', 'interpolated_value:every-path',
+                'interpolated_value has a path that returns %s instead of interpolating from the previous value' % [r[:60] for r in rets if 'previous_raw_value' not in r][:2],
+                detail={'returns': [r[:80] for r in rets]})
 
 
 def finish(F, R):
